@@ -72,6 +72,10 @@ type Case struct {
 	// followed by further keys.  Style then picks where the keys lie (near
 	// zero, at the extremes of int64, anywhere).
 	Sign int `json:"sign,omitempty"`
+	// Interleave, if set, adds interleaved use of ONE streaming reader
+	// (FromFile) object: lookups issued while an All enumeration is running,
+	// and several All enumerations advanced alternately.
+	Interleave *Interleave `json:"interleave,omitempty"`
 	// Edits are size-preserving changes applied to the exported Data map of
 	// an InMemory tree after one full All() pass; the edited tree must then
 	// enumerate, look up and embed as the edited map.  EditDirect applies
@@ -103,6 +107,9 @@ type observed struct {
 	probesFile    int
 	probesMem     int
 	flags         map[string]bool
+	ilLookups     int
+	ilLockstep    int
+	ilAbandoned   bool
 }
 
 // ---------------------------------------------------------------------------
@@ -351,6 +358,11 @@ func run[K comparable](c *Case, a api[K], keys []K) error {
 
 	if err := validateAndCompare(c, a, r, root, keys, vals, true); err != nil {
 		return err
+	}
+	if c.Interleave != nil {
+		if err := interleaveStep(c, a, r, root, keys, vals); err != nil {
+			return err
+		}
 	}
 	if len(c.Edits) > 0 && n <= 1000 {
 		return editStep(c, a, r, root, keys, vals)
